@@ -30,6 +30,7 @@ type Config struct {
 	MapPerm     bool
 	AppendSlack int
 	FPReal      bool
+	ConcOff     bool
 	Verbose     bool
 	MaxViol     int
 	SolverLog   string
